@@ -8,6 +8,9 @@
 //              [moveagain=0] (moveToOwnThread once more, while the backlog is queued, right before the stop)
 //              [stagger=0] [after=2] [cycles=3] [producers=3] [per=20] [loop=1] [stop=reset|quit]
 //              [seed=1] [pace=<us>] [yield=<point>:<us>,...]
+//              [holdfirst=0] (the sink stalls inside its FIRST delivery on the worker until the stop has been called, plus 200 ms:
+//              with stagger=1 the whole backlog - tens of thousands of messages - is queued behind a stalled message when the
+//              stop begins, whatever the speed of the machine)
 //   path=rejecting: NOT a Logger but a bare OwnThreadHandler<FunctionHandler> whose wrapped function REJECTS
 //              (process() returns false for) the messages marked r in [reject=ara] (cyclic over the message ids);
 //              [cycles=1] x { moveToOwnThread, <backlog> messages, stop, 1 message } with [stop=reset|quit|delete]
@@ -69,6 +72,8 @@ struct Yield { char name[40]; int us; };
 static Yield g_yield[16];
 static int g_nyield = 0;
 static bool g_relog = false, g_movethread = false, g_concurrent = false, g_moveagain = false;
+static bool g_holdfirst = false;
+static std::atomic<bool> g_stop_called { false }, g_held { false };
 
 extern "C" void qtlogger_verif_point(const char *name)
 {
@@ -89,6 +94,12 @@ extern "C" void qtlogger_verif_point(const char *name)
     else if (!strcmp(name, "reset.quit")) emitf("RQUIT %d\n", t_stopper);
     for (int i = 0; i < g_nyield; i++)
         if (!strcmp(name, g_yield[i].name)) usleep(g_yield[i].us);
+}
+
+static void stopBegin()
+{
+    emitf("STOP_BEGIN\n");
+    g_stop_called = true;
 }
 
 struct RecSink : QtLogger::Sink
@@ -112,6 +123,10 @@ struct RecSink : QtLogger::Sink
         if (g_inside.fetch_add(1) != 0) emitf("OVERLAP %d\n", id);
         g_entered.fetch_add(1);
         if (delayMs > 0) usleep(1000 * delayMs);
+        if (g_holdfirst && !t_in_call && !g_held.exchange(true)) {      // a stalled sink: recovers 200 ms after the stop was called
+            for (int k = 0; k < 60000 && !g_stop_called.load(); k++) usleep(1000);
+            usleep(200 * 1000);
+        }
         if (g_relog && !t_in_call && t[0] == 'm') {
             // a sink that itself logs through the installed logger.  Only on the worker thread: on a
             // producer thread Qt's recursion guard sends a nested message to stderr, not to the handler
@@ -231,7 +246,7 @@ static void moveAgain()
 static void doReset()
 {
     moveAgain();
-    emitf("STOP_BEGIN\n");
+    stopBegin();
     if (g_concurrent) { // two threads stop at the same time
         std::thread t([]() { t_stopper = 1; L->resetOwnThread(); emitf("STOP_END 1\n"); });
         L->resetOwnThread();
@@ -267,7 +282,7 @@ int main(int argc, char **argv)
         if (eq) A[std::string(argv[i], eq - argv[i])] = eq + 1;
     }
     const std::string path = gets("path", "reset");
-    g_relog = geti("relog", 0); g_movethread = geti("movethread", 0); g_concurrent = geti("concurrent", 0); g_moveagain = geti("moveagain", 0);
+    g_relog = geti("relog", 0); g_movethread = geti("movethread", 0); g_concurrent = geti("concurrent", 0); g_moveagain = geti("moveagain", 0); g_holdfirst = geti("holdfirst", 0);
     const int backlog = geti("backlog", 5), delay = geti("delay", 0), after = geti("after", 2);
     const bool async = geti("async", 1), cfg = geti("cfg", 0), stagger = geti("stagger", 0), loop = geti("loop", 1);
     const int cycles = geti("cycles", 3), P = geti("producers", 3), per = geti("per", 20), seed = geti("seed", 1);
@@ -302,7 +317,7 @@ int main(int argc, char **argv)
                     if (async) { emitf("MOVE\n"); h->moveToOwnThread(); }
                     bareLog(*h, backlog, stagger);
                     if (last && stop == "quit") return; // stopped by aboutToQuit
-                    emitf("STOP_BEGIN\n");
+                    stopBegin();
                     if (last && stop == "delete") { delete h; h = nullptr; }
                     else h->resetOwnThread();
                     emitf("STOP_END 0\n");
@@ -312,7 +327,7 @@ int main(int argc, char **argv)
             if (loop || stop == "quit") {
                 QTimer::singleShot(0, &app, [&]() {
                     body();
-                    if (stop == "quit") emitf("STOP_BEGIN\n");
+                    if (stop == "quit") stopBegin();
                     app.quit();
                 });
                 app.exec();
@@ -334,7 +349,7 @@ int main(int argc, char **argv)
         auto *app = new QCoreApplication(argc, argv); // never deleted
         setup(async, cfg, delay);
         if (loop) { // an event loop has run (and aboutToQuit has stopped the worker); go asynchronous again
-            QTimer::singleShot(0, app, [&]() { burst(1, false); emitf("STOP_BEGIN\n"); app->quit(); });
+            QTimer::singleShot(0, app, [&]() { burst(1, false); stopBegin(); app->quit(); });
             app->exec();
             emitf("STOP_END 0\n");
             if (async) doMove();
@@ -371,7 +386,7 @@ int main(int argc, char **argv)
             } else if (path == "scoped") { // an own Logger object destroyed while the application lives
                 burst(backlog, stagger);
                 moveAgain();
-                emitf("STOP_BEGIN\n");
+                stopBegin();
                 delete L;
                 emitf("STOP_END 0\n");
                 L = nullptr;
@@ -401,7 +416,7 @@ int main(int argc, char **argv)
         if (loop || viaQuit) {
             QTimer::singleShot(0, &app, [&]() {
                 body();
-                if (viaQuit) { moveAgain(); emitf("STOP_BEGIN\n"); }
+                if (viaQuit) { moveAgain(); stopBegin(); }
                 app.quit();
             });
             app.exec(); // aboutToQuit -> resetOwnThread
